@@ -271,6 +271,7 @@ func executeC20(scn *Scenario) *RunResult {
 		var n int64
 		xsimrt.Hook = func(site int) {
 			n++
+			liveTicks++
 			yieldsInside++
 			if n > 2_000_000_000 {
 				panic(abortUnit{"stepcap"})
